@@ -193,7 +193,8 @@ def execute(scn):
                 continue
             # b. flags
             want = pl.flags_json(ex["direct"])
-            got = pl.flags_json(item.results[0].results) if item.results else None
+            res = rp.results_of(item)
+            got = pl.flags_json(res[0].results) if res else None
             if got != want:
                 if want is None:
                     sig = "result-where-direct-call-raises"
@@ -206,10 +207,12 @@ def execute(scn):
                 V.append(violation(PROP, "b", fe, f"{sig}:{ent['module']}.{ent['test']}", f"{label}: stream {got} direct {want}"))
                 tainted = True
                 continue
-            if item.results and (item.results[0].package, item.results[0].test) != (ent["module"], ent["test"]):
-                V.append(violation(PROP, "b", fe, "mislabelled-result", f"{label}: labelled {item.results[0].package}.{item.results[0].test}"))
+            if res and (res[0].package, res[0].test) != (ent["module"], ent["test"]):
+                V.append(violation(PROP, "b", fe, "mislabelled-result", f"{label}: labelled {res[0].package}.{res[0].test}"))
+            if res and not rp.readable_again(item):
+                V.append(violation(PROP, "b", fe, "results-readable-only-once", f"{label}: the flags of this context can be read once, a second reading gives nothing"))
             # data / axes carried by the ContextResult are the window rows too
-            for name, src in (("data", arrays["cols"][ent["sid"]]), ("tinp", arrays["time"]), ("zinp", arrays["z"]), ("lat", arrays["lat"]), ("lon", arrays["lon"])):
+            for name, src in (("data", arrays["cols_ext"][ent["sid"]]), ("tinp", arrays["time"]), ("zinp", arrays["z"]), ("lat", arrays["lat"]), ("lon", arrays["lon"])):
                 have = getattr(item, name)
                 if src is None:
                     continue
@@ -227,7 +230,7 @@ def execute(scn):
                 else:
                     stats["probe_checks"] += 1
                     p = mine[0]
-                    for name, src in (("inp", arrays["cols"][ent["sid"]]), ("tinp", arrays["time"]), ("zinp", arrays["z"]), ("lat", arrays["lat"]), ("lon", arrays["lon"])):
+                    for name, src in (("inp", arrays["cols_ext"][ent["sid"]]), ("tinp", arrays["time"]), ("zinp", arrays["z"]), ("lat", arrays["lat"]), ("lon", arrays["lon"])):
                         wantv = None if src is None else pl.seams.anyarray_to_json(src[ex["rows"]])
                         gotv = p[name]
                         if _vals(gotv) != _vals(wantv):
